@@ -87,6 +87,16 @@ var stmtGroups = map[string][]stmtTarget{
 		{"go/storage/mkvs/db/badger/badger.go", "badgerBatch", "PutNode", "putNode"},
 		{"go/storage/mkvs/db/badger/badger.go", "badgerNodeDB", "StartMultipartInsert", "startMultipartInsert"},
 	},
+	// C19: the trusted light-block store the stateless Core's "latest trusted height" comes from
+	// (production wrapper around the CometBFT store; OasisModel/Stateless/Verify.lean takes the store's
+	// last height as THE latest trusted height)
+	"lightstore": {
+		{"go/consensus/cometbft/light/store.go", "prunedStore", "LastLightBlockHeight", "lastLightBlockHeight"},
+		{"go/consensus/cometbft/light/store.go", "prunedStore", "SaveLightBlock", "saveLightBlock"},
+		{"go/consensus/cometbft/light/store.go", "prunedStore", "LightBlock", "lightBlock"},
+		{"go/consensus/cometbft/light/store.go", "prunedStore", "DeleteLightBlock", "deleteLightBlock"},
+		{"go/consensus/cometbft/light/client.go", "Client", "LastTrustedHeight", "lastTrustedHeight"},
+	},
 	// C04: lookup with a proof builder (OasisModel/Mkvs/Proof.lean doGet inclusion, ProofPosition.lean)
 	"lookup": {
 		{"go/storage/mkvs/lookup.go", "tree", "doGet", "doGet"},
